@@ -12,6 +12,7 @@
 //   tuner_stream       Tuner(fs, f): output k == x[k] exp(2 pi i f k / fs) (long double, double-valued f) within
 //                      4 eps (1 + 2 pi |f| k / fs) |x[k]| for every k of a 2..6 fs long stream, arbitrary framing.
 #include "kit/num.h"
+#include "kit/prelude.h"
 #include <dsplib.h>
 #include <memory>
 
